@@ -440,6 +440,9 @@ pub fn check_obs(prop: &str, case: &Case, o: &Obs) -> Vec<Finding> {
         Verdict::Panic(m) => out.push(fnd("coordinator-panic", format!("coordinator panicked: {m}"))),
         _ => {}
     }
+    if o.run.hang_in_drop {
+        out.push(fnd("hang", "the coordinator's clean-up loop would wait forever (nothing left to receive, counters never match)".into()));
+    }
     if !o.run.worker_panics.is_empty() {
         out.push(fnd("worker-panic", format!("worker panicked in {:?}", o.run.worker_panics)));
     }
